@@ -26,6 +26,7 @@ type World struct {
 	rc      *refCounter
 	churn   []*gkvlite.Store
 	dropped int
+	abandoned []*gkvlite.Store
 	lastFired bool
 	concYield func()
 	dead    bool // a hang happened: the process state is no longer trustworthy
@@ -317,8 +318,9 @@ func (w *World) exec(t []string) string {
 		}
 		return "nostore"
 	case "drop": // abandon a store without closing it (a crashed process)
-		if _, ok := w.stores[atoi(t[1])]; ok {
+		if st, ok := w.stores[atoi(t[1])]; ok {
 			w.dropped++
+			w.abandoned = append(w.abandoned, st) // never closed: its handles keep their references
 		}
 		delete(w.stores, atoi(t[1]))
 		return "ok"
